@@ -811,9 +811,12 @@ fn case_c04(ctx: &mut Ctx, r: &mut Rng) {
 }
 
 fn case_c04_n(ctx: &mut Ctx, r: &mut Rng, one: bool) {
-    // C04 is judged on delimiter-free strings, where the tag and container sections are unambiguous
+    // C04 is judged on delimiter-free strings, where the tag and container sections are unambiguous - and, for a quarter
+    // of the clients, on delimiter-laden ones (':', '|', '#', ',', newlines inside tags and container ids), where the
+    // line must END with the expected tag and container sections (no timestamp is requested then)
     let with_defaults = !r.chance(1, 5);
-    let (cfg, _pclass) = gen_client_cfg(r, false, with_defaults);
+    let dirty = r.chance(1, 4);
+    let (cfg, _pclass) = gen_client_cfg(r, dirty, with_defaults);
     let sink = RecSink::new();
     let hlog = HandlerLog::default();
     let client = build_client(&cfg, sink.clone(), Some(hlog.clone()));
@@ -828,20 +831,23 @@ fn case_c04_n(ctx: &mut Ctx, r: &mut Rng, one: bool) {
         }
         let val = gen_val(r, kind, tt, false, true);
         for form in [Form::Plain, Form::Tagged, Form::Quiet] {
-            let mask = (r.below(16) as u8) & !1 | (r.below(2) as u8);
-            let decos = gen_decos(r, mask, false, true);
+            let mut mask = (r.below(16) as u8) & !1 | (r.below(2) as u8);
+            if dirty {
+                mask &= !8;
+            }
+            let decos = gen_decos(r, mask, dirty, true);
             let sp = spec(kind, val.clone(), key, form, decos);
-            check_c04_call(ctx, &client, &cfg, &sink, &sp);
+            check_c04_call(ctx, &client, &cfg, &sink, &sp, dirty);
             // "for that call only": the next call without a per-call container must show the default again
             if mask & 4 != 0 && form != Form::Plain {
                 let sp2 = spec(kind, val.clone(), key, form, vec![]);
-                check_c04_call(ctx, &client, &cfg, &sink, &sp2);
+                check_c04_call(ctx, &client, &cfg, &sink, &sp2, dirty);
             }
         }
     }
 }
 
-fn check_c04_call(ctx: &mut Ctx, client: &StatsdClient, cfg: &ClientCfg, sink: &RecSink, sp: &CallSpec) {
+fn check_c04_call(ctx: &mut Ctx, client: &StatsdClient, cfg: &ClientCfg, sink: &RecSink, sp: &CallSpec, dirty: bool) {
     ctx.rep.eval();
     let before = sink.emit_count();
     let exp = match expectation(cfg, sp) {
@@ -884,6 +890,23 @@ fn check_c04_call(ctx: &mut Ctx, client: &StatsdClient, cfg: &ClientCfg, sink: &
             "expected_line" => clip(&ref_line(&exp), 400),
         }
     };
+    if dirty {
+        // sections cannot be cut out reliably when the strings contain the delimiters: the line has to end with them
+        let mut tail = String::new();
+        if !exp.tags.is_empty() {
+            tail.push_str("|#");
+            tail.push_str(&exp.tags.iter().map(|(k, v)| match k { Some(k) => format!("{}:{}", k, v), None => v.clone() }).collect::<Vec<_>>().join(","));
+        }
+        if let Some(c) = &exp.container {
+            tail.push_str("|c:");
+            tail.push_str(c);
+        }
+        ctx.rep.obs("delimiter_laden_decorations_checked", 1);
+        if !text.ends_with(tail.as_str()) {
+            ctx.violation("C04", "tags=defaults++call", "decoration-tail-wrong", format!("the line does not end with the expected tag / container sections {:?}", clip(&tail, 300)), trace());
+        }
+        return;
+    }
     let (tags, container) = match sections_of(text) {
         Ok(x) => x,
         Err(_) => {
